@@ -57,17 +57,19 @@ Qed.
 
 (* [ and { *)
 Lemma body_open p z1 a tok1 c r state g s :
-  cur3 z1 a tok1 (c :: r) -> (c = 91 /\ g = G_StartArray /\ s = S_Array) \/ (c = 123 /\ g = G_StartObject /\ s = S_ObjectKey) ->
+  cur3 z1 a tok1 (c :: r) -> state <> S_ObjectKey ->
+  (c = 91 /\ g = G_StartArray /\ s = S_Array) \/ (c = 123 /\ g = G_StartObject /\ s = S_ObjectKey) ->
   exists z' lo, next_body p z1 c false state = Some ((g, Some (lo, [c])), mkP z' (s :: pst p) (perr p) false (prd p)) /\
                 cur3 z' (a ++ tok1 ++ [c]) [] r.
 Proof.
-  intros H1 Hc. unfold next_body. cbn [andb].
+  intros H1 Hstate Hc. unfold next_body. cbn [andb].
   pose proof (cur3_mv1 _ _ _ _ _ (cur3_skip _ _ _ _ H1)) as H3. cbn [app] in H3.
   destruct (emit_at p g _ _ _ _ (s :: pst p) false H3) as (z' & He & Hz').
   rewrite <- app_assoc in Hz'.
+  replace (negb (state =? S_ObjectKey)) with true by lia.
   destruct Hc as [(-> & -> & ->)|(-> & -> & ->)].
-  - cbn [Z.eqb Pos.eqb]. exists z', (len (a ++ tok1)). split; [exact He|exact Hz'].
-  - cbn [Z.eqb Pos.eqb]. exists z', (len (a ++ tok1)). split; [exact He|exact Hz'].
+  - cbn [Z.eqb Pos.eqb andb]. exists z', (len (a ++ tok1)). split; [exact He|exact Hz'].
+  - cbn [Z.eqb Pos.eqb andb]. exists z', (len (a ++ tok1)). split; [exact He|exact Hz'].
 Qed.
 
 (* ] and } closing the matching container *)
@@ -97,13 +99,15 @@ Qed.
 Lemma jstring_hd k r : jstring k -> exists t, k ++ r = 34 :: t.
 Proof. intros [cs _]. eexists. reflexivity. Qed.
 
-Lemma not_bracket_body p z1 c need state : need = false -> c <> 123 -> c <> 125 -> c <> 91 -> c <> 93 ->
+Lemma not_bracket_body p z1 c need state : need = false -> (c <> 123 \/ state = S_ObjectKey) -> c <> 125 ->
+  (c <> 91 \/ state = S_ObjectKey) -> c <> 93 ->
   next_body p z1 c need state =
   if state =? S_ObjectKey then next_key p (skip z1) c need else next_value p (skip z1) c need state.
 Proof.
   intros -> H1 H2 H3 H4. unfold next_body. cbn [andb].
-  replace (c =? 123) with false by lia. replace (c =? 125) with false by lia.
-  replace (c =? 91) with false by lia. replace (c =? 93) with false by lia. reflexivity.
+  replace ((c =? 123) && negb (state =? S_ObjectKey)) with false by lia. replace (c =? 125) with false by lia.
+  replace ((c =? 91) && negb (state =? S_ObjectKey)) with false by lia. replace (c =? 93) with false by lia.
+  reflexivity.
 Qed.
 
 (* a key followed by whitespace and the colon *)
@@ -167,7 +171,7 @@ Lemma body_scalar p z1 a tok1 x g r state :
 Proof.
   intros H1 Hx Hr Htop Hstate.
   destruct (scalar_hd x g r Hx) as (_ & _ & Hb1 & Hb2 & Hb3 & Hb4 & _).
-  rewrite not_bracket_body by (try reflexivity; assumption).
+  rewrite not_bracket_body by (try reflexivity; try assumption; left; assumption).
   replace (state =? S_ObjectKey) with false by lia.
   unfold next_value, emit_value.
   assert (Hst' : (if state =? S_ObjectValue then set_top (pst p) S_ObjectKey else Some (pst p))
@@ -310,16 +314,17 @@ Proof. intros Hw Hn. rewrite <- Hn. apply lead_plain. exact Hw. Qed.
 
 Lemma open_run p a tok lead c r state g s :
   cur3 (pz p) a tok (lead ++ c :: r) -> lead_ok p lead false -> top (pst p) = Some state ->
+  state <> S_ObjectKey ->
   (c = 91 /\ g = G_StartArray /\ s = S_Array) \/ (c = 123 /\ g = G_StartObject /\ s = S_ObjectKey) ->
   exists p1 a1, runs p [mkSeen g [c] s] p1 /\ cur3 (pz p1) a1 [] r /\ pst p1 = s :: pst p /\
                 pneed p1 = false /\ same_err p p1.
 Proof.
-  intros Hc Hl Htop Hk.
+  intros Hc Hl Htop Hstate Hk.
   assert (Hws : is_ws (hd0 (c :: r)) = false /\ hd0 (c :: r) <> 44).
   { cbn [hd0]. unfold is_ws. destruct Hk as [(-> & _)|(-> & _)]; split; lia. }
   destruct (next_front p a tok lead (c :: r) false state Hc Hl (proj1 Hws) (proj2 Hws) Htop) as (z1 & H1 & Hn).
   cbn [hd0] in Hn.
-  destruct (body_open p z1 a (tok ++ lead) c r state g s H1 Hk) as (z' & lo & Hb & Hz').
+  destruct (body_open p z1 a (tok ++ lead) c r state g s H1 Hstate Hk) as (z' & lo & Hb & Hz').
   rewrite Hb in Hn. eexists _, _. split.
   { eapply runs_one; [exact Hn| |reflexivity]. destruct Hk as [(_ & -> & _)|(_ & -> & _)]; discriminate. }
   cbn [pz pst pneed]. split; [exact Hz'|]. split; [reflexivity|]. split; [reflexivity|]. split; reflexivity.
@@ -475,7 +480,7 @@ Proof.
   intros Hk Hw p a tok lead r state Hc Hl Hr Htop Hstate.
   replace (lead ++ (c1 :: w ++ [c2]) ++ r) with (lead ++ c1 :: (w ++ c2 :: r)) in Hc
     by (cbn [app]; rewrite <- !app_assoc; reflexivity).
-  destruct (open_run p a tok lead c1 _ state gs s Hc Hl Htop (ckind_open _ _ _ _ _ Hk))
+  destruct (open_run p a tok lead c1 _ state gs s Hc Hl Htop Hstate (ckind_open _ _ _ _ _ Hk))
     as (p1 & a1 & Hrun1 & Hc1 & Hst1 & Hn1 & He1).
   destruct (close_run p1 a1 [] w c2 r s ge (pst p) Hc1 Hw Hst1 (top_some_ne _ _ Htop) (ckind_close _ _ _ _ _ Hk))
     as (p3 & a3 & s3 & Hrun3 & Hc3 & Hst3 & Hn3 & He3).
@@ -499,7 +504,7 @@ Proof.
   intros Hk Hbal Hbody p a tok lead r state Hc Hl Hr Htop Hstate.
   replace (lead ++ (c1 :: body ++ [c2]) ++ r) with (lead ++ c1 :: (body ++ c2 :: r)) in Hc
     by (cbn [app]; rewrite <- !app_assoc; reflexivity).
-  destruct (open_run p a tok lead c1 _ state gs s Hc Hl Htop (ckind_open _ _ _ _ _ Hk))
+  destruct (open_run p a tok lead c1 _ state gs s Hc Hl Htop Hstate (ckind_open _ _ _ _ _ Hk))
     as (p1 & a1 & Hrun1 & Hc1 & Hst1 & Hn1 & He1).
   destruct (ckind_units c1 c2 gs ge s s 0 Hk) as (U1 & U2 & U3 & _).
   destruct (Hbody p1 a1 [] [] r (pst p) (mkSeen gs [c1] s) true Hc1 Hst1) as (us2 & p2 & Hrun2 & Hpost2).
